@@ -574,94 +574,8 @@ func checkC06(c *core.Ctx, r *core.Report) {
 		}
 	}
 
-	// ---------------------------------------------------------------- (5) a row limit is compared with the cumulative count
-	{
-		type limitSpec struct{ typ, limitOwner, limitField, counterField string }
-		for _, sp := range []limitSpec{{"headProcessor", "HeadExpr", "MaxRows", "numRecordsSent"}} {
-			named := c.NamedType(pkgProcessor, sp.typ)
-			limitF := c.Field("pkg/segment/structs", sp.limitOwner+"."+sp.limitField)
-			counterF := c.Field(pkgProcessor, sp.typ+"."+sp.counterField)
-			process := method(named, "Process")
-			cone := map[*ssa.Function]bool{process: true}
-			work := []*ssa.Function{process}
-			for len(work) > 0 {
-				f := work[len(work)-1]
-				work = work[:len(work)-1]
-				for _, ci := range core.CallsIn(f) {
-					if callee := ci.Common().StaticCallee(); callee != nil && !cone[callee] && callee.Signature.Recv() != nil && core.FnPkgPath(callee) == core.ModPath+"/"+pkgProcessor {
-						if rt, ok := callee.Signature.Recv().Type().(*types.Pointer); ok && types.Identical(rt.Elem(), named) {
-							cone[callee] = true
-							work = append(work, callee)
-						}
-					}
-				}
-			}
-			var fromField func(v ssa.Value, f *types.Var, depth int) bool
-			fromField = func(v ssa.Value, f *types.Var, depth int) bool {
-				if depth > 6 || v == nil {
-					return false
-				}
-				switch x := v.(type) {
-				case *ssa.UnOp:
-					if a, ok := x.X.(*ssa.FieldAddr); ok && core.FieldOfAddr(a) == f {
-						return true
-					}
-					return fromField(x.X, f, depth+1)
-				case *ssa.BinOp:
-					return fromField(x.X, f, depth+1) || fromField(x.Y, f, depth+1)
-				case *ssa.Convert:
-					return fromField(x.X, f, depth+1)
-				case *ssa.Phi:
-					for _, e := range x.Edges {
-						if fromField(e, f, depth+1) {
-							return true
-						}
-					}
-				}
-				return false
-			}
-			n := 0
-			var coneFns []*ssa.Function
-			for fn := range cone {
-				coneFns = append(coneFns, fn)
-			}
-			sort.Slice(coneFns, func(i, j int) bool { return coneFns[i].Name() < coneFns[j].Name() })
-			for _, fn := range coneFns {
-				k := 0
-				for _, b := range fn.Blocks {
-					for _, in := range b.Instrs {
-						bo, ok := in.(*ssa.BinOp)
-						if !ok {
-							continue
-						}
-						switch bo.Op {
-						case token.LSS, token.LEQ, token.GTR, token.GEQ, token.EQL, token.NEQ, token.SUB:
-						default:
-							continue
-						}
-						lx, ly := fromField(bo.X, limitF, 0), fromField(bo.Y, limitF, 0)
-						if !lx && !ly {
-							continue
-						}
-						// comparisons with constants (e.g. limit == 0) say nothing about the stream
-						if _, isK := bo.X.(*ssa.Const); isK {
-							continue
-						}
-						if _, isK := bo.Y.(*ssa.Const); isK {
-							continue
-						}
-						n++
-						k++
-						okc := fromField(bo.X, counterF, 0) || fromField(bo.Y, counterF, 0)
-						r.Check(okc, "LIVE", fmt.Sprintf("%s:%s#%d-row-limit-is-measured-against-the-cumulative-count", sp.typ, fn.Name(), k), c.Pos(bo.Pos()),
-							fmt.Sprintf("%s is combined with the rows already sent (%s)", sp.limitField, sp.counterField),
-							fmt.Sprintf("the configured row limit %s is compared with a quantity of the current batch only, not with the rows already sent (%s): how many rows the command lets through depends on how the input is chunked", sp.limitField, sp.counterField))
-					}
-				}
-			}
-			r.Floor("LIVE", "uses of the row limit in "+sp.typ, n, 3)
-		}
-	}
+	// (5) a row limit is compared with the cumulative count (shared with C05)
+	c06RowLimit(c, r, method)
 
 	// ---------------------------------------------------------------- (3) CachedStream invariant
 	{
@@ -1104,4 +1018,93 @@ func c06DeadState(c *core.Ctx, r *core.Report, impls []*types.Named) {
 			fmt.Sprintf("%s.%s is advanced from its own value but nothing reads it any more: whatever replaced it (the position inside the current batch, a per-call value) starts again at every batch, so the command's output depends on where the stream was cut into batches", i.owner.Obj().Name(), f.Name()))
 	}
 	r.Floor("LIVE", "running counters of pipeline processors", len(list), 2)
+}
+
+// c06RowLimit — (5) (shared with C05: `head n` lets through exactly n rows however the stream is chunked).
+func c06RowLimit(c *core.Ctx, r *core.Report, method func(named *types.Named, name string) *ssa.Function) {
+	type limitSpec struct{ typ, limitOwner, limitField, counterField string }
+	for _, sp := range []limitSpec{{"headProcessor", "HeadExpr", "MaxRows", "numRecordsSent"}} {
+		named := c.NamedType(pkgProcessor, sp.typ)
+		limitF := c.Field("pkg/segment/structs", sp.limitOwner+"."+sp.limitField)
+		counterF := c.Field(pkgProcessor, sp.typ+"."+sp.counterField)
+		process := method(named, "Process")
+		cone := map[*ssa.Function]bool{process: true}
+		work := []*ssa.Function{process}
+		for len(work) > 0 {
+			f := work[len(work)-1]
+			work = work[:len(work)-1]
+			for _, ci := range core.CallsIn(f) {
+				if callee := ci.Common().StaticCallee(); callee != nil && !cone[callee] && callee.Signature.Recv() != nil && core.FnPkgPath(callee) == core.ModPath+"/"+pkgProcessor {
+					if rt, ok := callee.Signature.Recv().Type().(*types.Pointer); ok && types.Identical(rt.Elem(), named) {
+						cone[callee] = true
+						work = append(work, callee)
+					}
+				}
+			}
+		}
+		var fromField func(v ssa.Value, f *types.Var, depth int) bool
+		fromField = func(v ssa.Value, f *types.Var, depth int) bool {
+			if depth > 6 || v == nil {
+				return false
+			}
+			switch x := v.(type) {
+			case *ssa.UnOp:
+				if a, ok := x.X.(*ssa.FieldAddr); ok && core.FieldOfAddr(a) == f {
+					return true
+				}
+				return fromField(x.X, f, depth+1)
+			case *ssa.BinOp:
+				return fromField(x.X, f, depth+1) || fromField(x.Y, f, depth+1)
+			case *ssa.Convert:
+				return fromField(x.X, f, depth+1)
+			case *ssa.Phi:
+				for _, e := range x.Edges {
+					if fromField(e, f, depth+1) {
+						return true
+					}
+				}
+			}
+			return false
+		}
+		n := 0
+		var coneFns []*ssa.Function
+		for fn := range cone {
+			coneFns = append(coneFns, fn)
+		}
+		sort.Slice(coneFns, func(i, j int) bool { return coneFns[i].Name() < coneFns[j].Name() })
+		for _, fn := range coneFns {
+			k := 0
+			for _, b := range fn.Blocks {
+				for _, in := range b.Instrs {
+					bo, ok := in.(*ssa.BinOp)
+					if !ok {
+						continue
+					}
+					switch bo.Op {
+					case token.LSS, token.LEQ, token.GTR, token.GEQ, token.EQL, token.NEQ, token.SUB:
+					default:
+						continue
+					}
+					lx, ly := fromField(bo.X, limitF, 0), fromField(bo.Y, limitF, 0)
+					if !lx && !ly {
+						continue
+					}
+					// comparisons with constants (e.g. limit == 0) say nothing about the stream
+					if _, isK := bo.X.(*ssa.Const); isK {
+						continue
+					}
+					if _, isK := bo.Y.(*ssa.Const); isK {
+						continue
+					}
+					n++
+					k++
+					okc := fromField(bo.X, counterF, 0) || fromField(bo.Y, counterF, 0)
+					r.Check(okc, "LIVE", fmt.Sprintf("%s:%s#%d-row-limit-is-measured-against-the-cumulative-count", sp.typ, fn.Name(), k), c.Pos(bo.Pos()),
+						fmt.Sprintf("%s is combined with the rows already sent (%s)", sp.limitField, sp.counterField),
+						fmt.Sprintf("the configured row limit %s is compared with a quantity of the current batch only, not with the rows already sent (%s): how many rows the command lets through depends on how the input is chunked", sp.limitField, sp.counterField))
+				}
+			}
+		}
+		r.Floor("LIVE", "uses of the row limit in "+sp.typ, n, 3)
+	}
 }
